@@ -83,8 +83,17 @@ def pre_cell(world, y, x):
 
 
 def post_cells(state):
-    """materialised cells of the (in-place transformed) state's grid"""
-    return state.grid.objects.cells
+    """cells of a state's grid that were materialised (lazy grid) -- or all of them when the grid is a plain list of lists
+    (a copy routine under test may have rebuilt the grid with ordinary lists)"""
+    rows = state.grid.objects
+    if hasattr(rows, 'cells'):
+        return rows.cells
+    return {(y, x): o for y, row in enumerate(rows) for x, o in enumerate(row)}
+
+
+def held_touched(state):
+    f = getattr(state.agent, 'held_touched', None)
+    return True if f is None else f()
 
 
 def shapes(maxh, maxw, minh=1, minw=1):
